@@ -5,28 +5,40 @@ import (
 	"testing"
 )
 
-// Property-level oracle (C14): a reported stop is one of the stops and occurs in the
-// text; "no stop" is reported only if none of the stops occurs.
+// Property-level oracle (C14): a reported stop is one of the stops, occurs in the text,
+// and no stop starts earlier in the text (otherwise cutting at the reported stop leaves
+// another stop in the output); "no stop" is reported only if none occurs.
 func TestGovcReplay(t *testing.T) {
 	w := govcLoadWitness()
-	seq, stops := w.Str("sequence"), w.Strs("stops")
-	found, stop := FindStop(seq, stops)
-	if found {
-		member := false
-		for _, s := range stops {
-			member = member || s == stop
-		}
-		if !member || !strings.Contains(seq, stop) {
-			t.Fatalf("REPRODUCED: FindStop(%q, %q) = true, %q: not a stop contained in the text", seq, stops, stop)
-		}
-	} else {
-		for _, s := range stops {
-			if strings.Contains(seq, s) {
-				t.Fatalf("REPRODUCED: FindStop(%q, %q) = false but %q occurs", seq, stops, s)
+	check := func(seq string, stops []string) {
+		found, stop := FindStop(seq, stops)
+		if found {
+			member := false
+			for _, s := range stops {
+				member = member || s == stop
+			}
+			if !member || !strings.Contains(seq, stop) {
+				t.Fatalf("REPRODUCED: FindStop(%q, %q) = true, %q: not a stop contained in the text", seq, stops, stop)
+			}
+			at := strings.Index(seq, stop)
+			for _, s := range stops {
+				if i := strings.Index(seq, s); i >= 0 && i < at {
+					t.Fatalf("REPRODUCED: FindStop(%q, %q) = %q (at %d) but stop %q starts earlier (at %d): text before the cut %q still contains a stop", seq, stops, stop, at, s, i, seq[:at])
+				}
+			}
+		} else {
+			for _, s := range stops {
+				if strings.Contains(seq, s) {
+					t.Fatalf("REPRODUCED: FindStop(%q, %q) = false but %q occurs", seq, stops, s)
+				}
+			}
+			if stop != "" {
+				t.Fatalf("REPRODUCED: FindStop returned false with stop %q", stop)
 			}
 		}
-		if stop != "" {
-			t.Fatalf("REPRODUCED: FindStop returned false with stop %q", stop)
-		}
 	}
+	check(w.Str("sequence"), w.Strs("stops"))
+	// the solver's strings interpret the uninterpreted predicates freely; the failing
+	// obligation (earliest stop) has this concrete shape:
+	check("ab", []string{"b", "a"})
 }
